@@ -19,6 +19,7 @@ MC = """---- MODULE MC_ParseRun ----
 EXTENDS ParseRun
 AtomsDef == %(atoms)s
 St0Def == %(st0)s
+ModesCfgDef == %(modescfg)s
 %(ctxdefs)s
 ====
 """
@@ -29,6 +30,7 @@ CFG = """CONSTANTS
   VPosNone = "%(vposnone)s"
   Atoms <- AtomsDef
   St0 <- St0Def
+  ModesCfg <- ModesCfgDef
 %(ctxconst)s
   K = %(K)d
   Shard = %(shard)d
@@ -39,9 +41,48 @@ CHECK_DEADLOCK FALSE
 """
 
 
-def mc_text(atoms, ctxname, st_kw=None):
+# C10: frozen from the documentation (latexwalker default specs / property statement), NOT read from the code
+DOC_TEXT_MACROS = ['text', 'textrm', 'textit', 'textbf', 'textmd', 'textsc', 'textsf', 'textsl', 'texttt', 'textup', 'mbox',
+                   'textnormal', 'intertext']
+DOC_MATH_MACROS = ['ensuremath']
+DOC_MATH_ENVS = ['equation', 'equation*', 'eqnarray', 'eqnarray*', 'align', 'align*', 'multline', 'multline*', 'gather',
+                 'gather*', 'dmath', 'dmath*', 'alignat', 'alignat*', 'split', 'flalign', 'flalign*', 'math', 'displaymath']
+MODES_LISTS = {
+    'k': dict(textmacros=['t'], mathmacros=['q'], mathenvs=['q']),
+    'knounk': dict(textmacros=[], mathmacros=[], mathenvs=[]),
+    'default': dict(textmacros=DOC_TEXT_MACROS, mathmacros=DOC_MATH_MACROS, mathenvs=DOC_MATH_ENVS),
+}
+
+
+def modes_cfg(ctxname, st_kw=None):
+    d = dict(MODES_LISTS[ctxname])
+    d['inline_open'] = ['$', '\\(']
+    st = pstate.make(ctx=ctxname, **(st_kw or {}))
+    d['top_math'] = bool(st['in_math'])
+    d['top_delim'] = st['mdelim']
+    return d
+
+
+def modes_cfg_tla(ctxname, st_kw=None):
+    d = modes_cfg(ctxname, st_kw)
+    seq = lambda xs: '<<' + ', '.join(common.tla_seq(x) for x in xs) + '>>'
+    return ('[textmacros |-> %s, mathmacros |-> %s, mathenvs |-> %s, inline_open |-> %s, top_math |-> %s, top_delim |-> %s]'
+            % (seq(d['textmacros']), seq(d['mathmacros']), seq(d['mathenvs']), seq(d['inline_open']),
+               'TRUE' if d['top_math'] else 'FALSE', common.tla_seq(d['top_delim'])))
+
+
+def modes_cfg_json(ctxname, st_kw=None):
+    d = modes_cfg(ctxname, st_kw)
+    return dict(textmacros=[common.codes(x) for x in d['textmacros']], mathmacros=[common.codes(x) for x in d['mathmacros']],
+                mathenvs=[common.codes(x) for x in d['mathenvs']], inline_open=[common.codes(x) for x in d['inline_open']],
+                top_math=d['top_math'], top_delim=common.codes(d['top_delim']))
+
+
+def mc_text(atoms, ctxname, st_kw=None, K=5):
     st = pstate.make(ctx=ctxname, tol=False, **(st_kw or {}))
-    return MC % dict(atoms=pstate.atoms_tla(atoms), st0=pstate.tla_record(st), ctxdefs=contexts.tla_defs(ctxname))
+    only = contexts.names_in_atoms(ctxname, atoms, K) if ctxname == 'default' else None
+    return MC % dict(atoms=pstate.atoms_tla(atoms), st0=pstate.tla_record(st), ctxdefs=contexts.tla_defs(ctxname, only=only),
+                     modescfg=modes_cfg_tla(ctxname, st_kw))
 
 
 def cfg_text(ctxname, K, shard, modes, invs, variants=None):
@@ -53,7 +94,7 @@ def cfg_text(ctxname, K, shard, modes, invs, variants=None):
 
 
 def export_jobs(atoms, ctxname, K, modes, invs, payload=None, timeout=3000, variants=None, st_kw=None, shards=None):
-    mc = mc_text(atoms, ctxname, st_kw)
+    mc = mc_text(atoms, ctxname, st_kw, K=K)
     jobs = []
     for sh in (shards if shards is not None else range(0, len(atoms) + 1)):
         pl = dict(payload or {})
